@@ -26,6 +26,24 @@ func controlAlpha(level int) []codec.Control {
 	// paging
 	sizes := []uint32{0, 1, 127, 128, 65535, 1 << 31, 1<<32 - 1}
 	cookies := [][]byte{nil, {0x07}, {0x00, 0xff, 0x30, 0x03}, []byte(strings.Repeat("c", 200))}
+	if level >= 3 {
+		// every power of two of the field's width, with both neighbours; cookie lengths around the BER length-form boundaries
+		sizes = nil
+		for k := uint(0); k <= 32; k++ {
+			for _, d := range []int64{-1, 0, 1} {
+				if v := int64(1)<<k + d; v >= 0 && v <= 1<<32-1 {
+					sizes = append(sizes, uint32(v))
+				}
+			}
+		}
+		for _, n := range []int{1, 2, 126, 127, 128, 129, 255, 256, 257, 65535, 65536} {
+			ck := make([]byte, n)
+			for i := range ck {
+				ck[i] = byte(i*7 + n)
+			}
+			cookies = append(cookies, ck)
+		}
+	}
 	if level == 0 {
 		sizes, cookies = []uint32{128}, [][]byte{{0x07}}
 	} else if level == 1 {
@@ -46,6 +64,17 @@ func controlAlpha(level int) []codec.Control {
 	}
 	// behera
 	ints := intAlpha
+	if level >= 3 {
+		ints = nil
+		for k := uint(0); k <= 62; k++ {
+			for _, d := range []int64{-1, 0, 1} {
+				if v := int64(1)<<k + d; v >= 0 {
+					ints = append(ints, v)
+				}
+			}
+		}
+		ints = append(ints, 1<<63-1)
+	}
 	if level == 0 {
 		ints = []int64{128}
 	} else if level == 1 {
